@@ -53,9 +53,17 @@ SHRINK = {"max_attempts": 150, "max_seconds": 120.0, "simple_values": {"policy":
 # generation
 # --------------------------------------------------------------------------
 
-def _reader_script(rng: random.Random, L: int, align: int, sector: int, phase: int = 0) -> List[list]:
+def _reader_script(rng: random.Random, L: int, align: int, sector: int, phase: int = 0, many: bool = False) -> List[list]:
     ops = []
     pos = 0
+    if sector and L > 3 * sector and (many or rng.random() < 0.25):
+        # one call that spans many sectors (whole 'middle' sectors in a row), from the start or from a small offset
+        if rng.random() < 0.4:
+            ops.append(["seek", (rng.choice([2, sector // 2, sector, sector + 2]) // align) * align, 0])
+        for _ in range(rng.randint(1, 3)):
+            n = rng.choice([L, L + align, 3 * sector, 4 * sector + align, 5 * sector, 0x8000 + align, 0x10000, 6 * sector - align])
+            ops.append(["read", (n // align) * align])
+        return ops
     if sector and rng.random() < 0.35:
         # reads that end exactly on the edges of the *underlying* sector / cluster grid (the view starts `phase` bytes into a
         # sector): whatever a stream remembers about "where the parent is" at such an edge is stale once another client ran
@@ -172,8 +180,25 @@ def gen(rng: random.Random, tier: str, index: int) -> dict:
             sc["sweep"] = [group, k]
         return sc
     fmt = weighted(rng, [("akai", 4), ("akai2352", 2), ("roland", 3), ("cdda", 3)])
+    big_name = None
     if fmt in ("akai", "akai2352"):
         model = gen_akai(rng, max_parts=2, max_vols=3, max_files=5, min_files=1, programs=True, big=(fmt == "akai"))
+        if rng.random() < 0.35:
+            # chains whose end points look like one ascending run while the sectors in between are out of order
+            for p_ in model["partitions"]:
+                for v_ in p_["volumes"]:
+                    for f_ in v_["files"]:
+                        if f_.get("kind") == "sample" and rng.random() < 0.7:
+                            f_["policy"] = rng.choice(["inner_permuted", "inner2_permuted", "inner2_permuted"])
+        smp = [f_ for p_ in model["partitions"] for v_ in p_["volumes"] for f_ in v_["files"] if f_.get("kind") == "sample" and not f_.get("pair")]
+        if fmt == "akai" and smp and rng.random() < 0.2:
+            # one file of 8-15 sectors whose interior sectors are linked out of order, read with calls that span all of it
+            big_file = rng.choice(smp)
+            big_file["n"] = rng.randint(30000, 60000)
+            big_file.pop("start", None)
+            big_file.pop("end", None)
+            big_file["policy"] = rng.choice(["inner2_permuted", "inner2_permuted", "inner_permuted", "random"])
+            big_name = big_file["name"]
     elif fmt == "roland":
         model = gen_roland(rng, max_samples=5, max_perf=3, max_vols=2, max_clusters=3, long_bias=rng.choice([0.0, 0.5, 0.8]))
     else:
@@ -186,8 +211,15 @@ def gen(rng: random.Random, tier: str, index: int) -> dict:
         return sc
     rng.shuffle(targets)
     nd = min(len(targets), weighted(rng, [(1, 1), (2, 4), (3, 3), (4, 1)]))
+    if big_name is not None:
+        bt = [t for t in targets if t["path"].rsplit("/", 1)[-1] == big_name]
+        if bt:
+            targets.remove(bt[0])
+            targets.insert(0, bt[0])
     for t in targets[:nd]:
-        if rng.random() < 0.6:
+        if big_name is not None and t["path"].rsplit("/", 1)[-1] == big_name:
+            sc["clients"].append({"k": "R", "target": t["path"], "ops": _reader_script(rng, t["len"], 2, 8192, t.get("phase", 0), many=True)})
+        elif rng.random() < 0.6:
             cl = {"k": "T", "target": t["path"], "pair": t.get("pair")}
             if rng.random() < 0.3:
                 cl["reopen_after"] = rng.randint(1, 3)
